@@ -73,6 +73,7 @@ type caseSpec struct {
 	stake     uint64 // initial stake of the miner whose account is contract idMiner
 	pcExist   bool   // the precompiles' accounts exist (nonce 1)
 	maxNonce  int    // this contract starts with nonce 2^64-1 (0: none)
+	balOf     map[int]uint64 // fixed initial balances (others are drawn)
 	staticOp  string // set for the fixed cases that run a custom opcode inside a static frame (expected finding)
 }
 
@@ -103,6 +104,9 @@ func (cs *caseSpec) initial(r *hx.Rng) []iacct {
 		}
 		if c == cs.maxNonce {
 			a.nonce = ^uint64(0)
+		}
+		if b, ok := cs.balOf[c]; ok {
+			a.bal = bigU(b)
 		}
 		for _, k := range keys {
 			if r.Intn(3) == 0 {
